@@ -1,3 +1,5 @@
+#[cfg(mos_verif_threads)]
+use mos_simrt::std_shim as std;
 use crate::parser::code_map::{CodeMap, Span, SpanLoc};
 use codespan_reporting::diagnostic::{Diagnostic, Severity};
 use codespan_reporting::files::{Error, Files};
